@@ -26,7 +26,7 @@ func init() {
 		ID:       "C11",
 		Title:    "SyncList is a linearizable unbounded FIFO queue with a sane length",
 		Quick:    3000,
-		Thorough: 200000,
+		Thorough: 50000,
 		Gen:      gen,
 		Corpus:   corpus,
 		Impl:     impl,
